@@ -128,3 +128,18 @@ Theorem C15_encoded_stream_lpc :
     parse_stream bytes = Some s.
 Proof. exact encoded_stream_parses_back_lpc. Qed.
 Print Assumptions C15_encoded_stream_lpc.
+
+(* "... yields a component tree that verifies": the tree of an emitted stream (which C15_encoded_stream shows the parser
+   returns) passes StreamInfo::verify and Frame::verify *)
+Theorem C15_encoded_stream_verifies :
+  forall (ent : N -> N -> N -> N) (qlpc : N -> N -> qparams) (md5 : list N -> list N)
+         cfg rate channels bps bs samples s (total : nat),
+    encode_stream ent qlpc md5 cfg rate channels bps bs samples = Ok s ->
+    cfg_max_parameter cfg <= 14 -> In bps [8; 12; 16; 20; 24] -> rate <= 96000 -> 1 <= channels <= 8 ->
+    1 <= bs <= Generated.c_MAX_BLOCK_SIZE ->
+    length samples = (total * N.to_nat channels)%nat ->
+    (forall j b, nth_error (chunks (N.to_nat (bs * channels)) samples) j = Some b ->
+                 block_hyps qlpc cfg (N.of_nat j) channels bps b (length b / N.to_nat channels)) ->
+    verify_streaminfo (s_info s) = true /\ Forall (fun f => verify_frame f = true) (s_frames s).
+Proof. exact encoded_stream_verifies. Qed.
+Print Assumptions C15_encoded_stream_verifies.
